@@ -83,6 +83,16 @@ CHECKS = {
          "clause (a rotation of a live complex resolves to that object) is exercised on the implementation on every run "
          "(orbits presented in random order, named/unnamed/other-named) and belongs to the registry machine of C01.",
     design="DESIGN.md 5, 7 (C02)", technique="Coq proof (orbit of rotate_complex_once, minimality by sorted insertion) + model/implementation correspondence"),
+ "C20": dict(
+    text="Proof: the legacy DSD_Complex canonical-form search (in-place rotation, first-occurrence table, memory check) "
+         "returns exactly the canonical form of the current API on every well-formed aligned input; with a complex "
+         "registered, a request is reported as DSDDuplicationError exactly when it is rotation-equivalent (i.e. when the "
+         "current API would resolve it to the existing object); the legacy SequenceConstraint complements (tables "
+         "regenerated from its behaviour on every run) agree with iupac_utils on sequences of every length wherever both "
+         "are defined. Pair table, loop index, kernel string, size, connectivity, exterior/enclosed domains and split "
+         "components of the legacy objects are tied by correspondence to the same model functions as the current API "
+         "(C06/C08/C09) and compared directly between the two implementations on every run.",
+    design="DESIGN.md 7 (C20)", technique="Coq proof (orbit argument on the legacy rotation loop; regenerated legacy tables) + correspondence of both object models"),
 }
 
 NOT_YET = {}
